@@ -23,6 +23,13 @@ unsigned long use_scalar_i(int a, int b, int c, unsigned ua, unsigned ub, size_t
   return clamp(a, b, c) + divRoundUp(a, b) + divRoundUp(ua, ub) + divRoundUp(sa, sb) + divRoundUp(la, lb);
 }
 
+// the integer-generic templates at the narrow widths: the operands are promoted to int, ONE narrowing at the return
+int use_scalar_narrow(int8_t a8, int8_t b8, uint8_t ua8, uint8_t ub8, int16_t a16, int16_t b16, uint16_t ua16, uint16_t ub16)
+{
+  return divRoundUp(a8, b8) + divRoundUp(ua8, ub8) + divRoundUp(a16, b16) + divRoundUp(ua16, ub16) + clamp(ua8, ub8, ua8) +
+         clamp(a16, b16, a16);
+}
+
 uint32_t use_pack(const vec4f &v, float f)
 {
   vec4f s = linear_to_srgba(v);
